@@ -55,7 +55,7 @@ struct jls_rd_s {
 
 
 /**
- * @brief Complete a link update that the writer did not finish.
+ * @brief Complete a link update that the writer did not finish or start.
  *
  * The writer appends a chunk and then rewrites the header of the previous
  * chunk in the same list to set its item_next.  When the writer stops inside
@@ -77,8 +77,19 @@ static int32_t repair_torn_link(struct jls_core_s * core, int64_t pos) {
         return 0;
     }
     ROE(jls_bk_fseek(backend, prev, SEEK_SET));
-    if (jls_bk_fread(backend, &h_disk, sizeof(h_disk)) || (jls_crc32c_hdr(&h_disk) == h_disk.crc32)) {
-        return jls_raw_seek_end(core->raw);  // unreadable or intact: nothing to do
+    if (jls_bk_fread(backend, &h_disk, sizeof(h_disk))) {
+        return jls_raw_seek_end(core->raw);  // unreadable: nothing to do
+    }
+    if (jls_crc32c_hdr(&h_disk) == h_disk.crc32) {
+        if (0 == h_disk.item_next) {
+            // The writer stopped after appending the last chunk, before it started the link update.
+            JLS_LOGW("chunk %" PRIi64 ": adding missing link to %" PRIi64, prev, pos);
+            h_disk.item_next = (uint64_t) pos;
+            h_disk.crc32 = jls_crc32c_hdr(&h_disk);
+            ROE(jls_bk_fseek(backend, prev, SEEK_SET));
+            ROE(jls_bk_fwrite(backend, &h_disk, sizeof(h_disk)));
+        }
+        return jls_raw_seek_end(core->raw);
     }
     h_old = h_disk;
     h_old.item_next = 0;
